@@ -124,7 +124,7 @@ func TestC19(t *testing.T) {
 	// deeply nested multi-line programs under every configuration and indentation width
 	if sh == 1%nsh {
 		for _, src := range deepSources() {
-			for w := uint(0); w < 6; w++ {
+			for w := uint(0); w < 7; w++ {
 				run(t, wproto.Req{Op: "downstream", Src: src, Lo: 0, Hi: 256, Dir: scratch, Width: w}, true, false)
 			}
 		}
@@ -184,7 +184,7 @@ func TestC19(t *testing.T) {
 				src = strings.TrimRight(src, "\n") + rapid.SampledFrom([]string{` \`, ` ""`, ` ''`, " $", ` "$"`, " <<E\nE\n", ` "" ''`, " >f"}).Draw(rt, "oddtail")
 			}
 			lo := uint(rapid.IntRange(0, 31).Draw(rt, "cfgwindow") * 8)
-			run(rt, wproto.Req{Op: "downstream", Src: src, Lo: lo, Hi: lo + 8, Dir: scratch, Width: uint(rapid.IntRange(0, 5).Draw(rt, "width"))}, oddShape.MatchString(src) || strings.Contains(src, "<<"), true)
+			run(rt, wproto.Req{Op: "downstream", Src: src, Lo: lo, Hi: lo + 8, Dir: scratch, Width: uint(rapid.IntRange(0, 6).Draw(rt, "width"))}, oddShape.MatchString(src) || strings.Contains(src, "<<"), true)
 			st.Sample(map[string]any{"op": "downstream", "src": src})
 		case 3:
 			s := strings.Join(rapid.SliceOfN(rapid.SampledFrom(special), 0, 8).Draw(rt, "s"), "")
